@@ -89,7 +89,26 @@ def make_family(sym, ferm, seedtag=1):
     p2 = tagged((sr.BlockIndex({e: 1, c1: 2}, dual=False), sr.BlockIndex({e: 1}, dual=False), j, k), e).fuse((0, 1))
     fam["prefused-a"] = p1
     fam["prefused-b"] = p2
+    # members with a leg fused TWICE that differ only in the innermost legs: block sizes swapped (all products, hence
+    # every outer table and extent, agree) and - where the group makes the fused charges independent of it - one inner direction
+    def twice(sa, sb, dual_b=False):
+        a = sr.BlockIndex({e: sa, c1: sa}, dual=False)
+        b = sr.BlockIndex({e: sb, c1: sb}, dual=dual_b)
+        c = sr.BlockIndex({e: 1}, dual=False)
+        return tagged((a, b, c, j, k), e).fuse((0, 1)).fuse((0, 1))
+
+    fam["fused-twice-a"] = twice(1, 2)
+    fam["fused-twice-b"] = twice(2, 1)
+    if sym in ("Z2", "Z2Z2"):
+        fam["fused-twice-c"] = twice(1, 2, True)
     return fam
+
+
+def _unfuse_fully(y):
+    """down to the innermost legs (pre-fused members carry nested sub-index structure)"""
+    while any(ix.subinfo is not None for ix in y.indices):
+        y = y.unfuse_all()
+    return y
 
 
 def event_list(fam):
@@ -104,7 +123,7 @@ def event_list(fam):
         evs.append((f"{nm}:fuse((2,1,0))", lambda x=x: x.fuse((2, 1, 0))))
         evs.append((f"{nm}:tensordot-fused", lambda x=x: sr.tensordot(x, x.conj(), ((0, 1), (0, 1)), mode="fused")))
         evs.append((f"{nm}:reshape", lambda x=x: x.reshape((x.shape[0] * x.shape[1], x.shape[2]))))
-        evs.append((f"{nm}:fuse-unfuse_all", lambda x=x: x.fuse((1, 0), (2,)).unfuse_all()))
+        evs.append((f"{nm}:fuse-unfuse_all", lambda x=x: _unfuse_fully(x.fuse((1, 0), (2,)))))
         evs.append((f"{nm}:svd_truncated(1)", lambda x=x: tuple(o for o in sr.linalg.svd_truncated(x.fuse((0, 1), (2,)), max_bond=1, cutoff=0.0) if o is not None)))
         evs.append((f"{nm}:svd_truncated(2)", lambda x=x: tuple(o for o in sr.linalg.svd_truncated(x.fuse((0, 1), (2,)), max_bond=2, cutoff=0.0) if o is not None)))
     return evs
@@ -172,7 +191,7 @@ def system_state(rec, fam):
     return (tuple(ac._fuseinfos.keys()), tuple(sorted((k, tuple(sorted(v))) for k, v in rec.seen.items())), memo, ac._DEFAULT_TENSORDOT_MODE)
 
 
-CORE_MEMBERS = ("base", "dual-flipped", "missing", "prefused-a", "prefused-b")
+CORE_MEMBERS = ("base", "dual-flipped", "missing", "prefused-a", "prefused-b", "fused-twice-a", "fused-twice-b")
 CORE_EVENTS = ("fuse((0,1),(2,))", "tensordot-fused", "reshape", "svd_truncated(1)")
 
 
